@@ -225,6 +225,17 @@ var variants = []variant{
 	{"priority-len4", func(T uint32) [][]byte { return one(h2peer.RawFrame(2, 0, T, u32(0))) }},
 	{"priority-len6", func(T uint32) [][]byte { return one(h2peer.RawFrame(2, 0, T, cat(u32(0), []byte{1, 2}))) }},
 	{"priority-self-dependency", func(T uint32) [][]byte { return one(h2peer.RawFrame(2, 0, T, cat(u32(T), []byte{10}))) }},
+	// PRIORITY frames that draw (or may draw) a stream error on an idle id ABOVE the ids the script uses next: they
+	// open no stream and must not move the boundary between idle and closed ids (after seeded change C13-M) - the
+	// follow-up request and the closing request use lower / the same ids
+	{"priority-self-dependency-on-higher-idle-id", func(T uint32) [][]byte {
+		return one(h2peer.RawFrame(2, 0, T+6, cat(u32(T+6), []byte{10})))
+	}},
+	{"priority-self-dependency-on-higher-even-idle-id", func(T uint32) [][]byte {
+		return one(h2peer.RawFrame(2, 0, T+5, cat(u32(T+5), []byte{10})))
+	}},
+	{"priority-len4-on-higher-idle-id", func(T uint32) [][]byte { return one(h2peer.RawFrame(2, 0, T+6, u32(0))) }},
+	{"priority-valid-on-higher-idle-id", func(T uint32) [][]byte { return one(h2peer.RawFrame(2, 0, T+6, cat(u32(T), []byte{10}))) }},
 	// ---- WINDOW_UPDATE
 	{"window-update-valid", func(T uint32) [][]byte { return one(h2peer.RawFrame(8, 0, T, u32(100))) }},
 	{"window-update-conn-valid", func(T uint32) [][]byte { return one(h2peer.RawFrame(8, 0, 0, u32(100))) }},
